@@ -17,7 +17,7 @@ from vf.props import c06
 
 ID = "C20"
 LEVEL = "exploration"
-TECHNIQUE = "stateful / model-based property testing of call histories (valid and invalid orders) with a step()-only twin simulation as the oracle"
+TECHNIQUE = "stateful / model-based property testing of call histories (valid and invalid orders) with a step()-only twin simulation as the oracle; small-scope exhaustive enumeration of all call sequences over the five stepping entry points on tiny programs"
 RULE = ("TOY programs of C06 x two generated call schedules over {step, first_cycle_step, second_cycle_step, single_step} "
         "(legal and illegal orders, continuing after done). A phase model decides which calls are legal; at every instruction "
         "boundary the full state snapshot, get_memory_table_entries() (cycle markers), get_register_representations() and "
